@@ -131,6 +131,44 @@ def length_sweep(rep, tier, rng, root, viol):
         shutil.rmtree(root, ignore_errors=True)
 
 
+def storage_config_sweep(rep, tier, rng, root, viol):
+    """the same commands over a server whose store is configured at the edges: no reader cache, no reader pool, a file per
+    entry, one-byte files, everything synced; replies against the python map"""
+    cfgs = ["cache=0 pool=0 mfs=0", "cache=1 pool=1 mfs=1 sync=always", "cache=0 pool=4 mfs=60", "cache=2 pool=0 mfs=1000000"]
+    if tier != "quick":
+        cfgs += ["cache=256 pool=1 mfs=0 sync=always", "cache=1 pool=0 mfs=300"]
+    keys = [b"a", b"", "ключ".encode()]
+    for cfg in cfgs:
+        lines, exp, m = [f"srv.start max=8 {cfg}", "c.open x"], {}, {}
+        for _ in range(40 if tier == "quick" else 200):
+            r = rng.random()
+            k = rng.choice(keys)
+            if r < 0.4:
+                rq = ("SET", k, bytes(rng.getrandbits(8) for _ in range(rng.choice([0, 1, 30, 200]))))
+            elif r < 0.8:
+                rq = ("GET", k)
+            else:
+                rq = ("DEL", [rng.choice(keys) for _ in range(rng.randint(1, 3))])
+            want = apply_req(m, rq)
+            lines += [f"c.send x {req_bytes(rq).hex()}", "c.read x 1 5000"]
+            tokb = want
+            exp[len(lines) - 1] = ("S:4f4b" if tokb == b"+OK\r\n" else "N" if tokb == b"$-1\r\n" else "I:" + tokb[1:-2].decode() if tokb[:1] == b":" else "B:" + show_val(m.get(rq[1])), rq)
+        lines += ["srv.stop"]
+        shutil.rmtree(root, ignore_errors=True)
+        try:
+            ans = run_harness(["net", "--root", root, "--hang-ms", "30000"], lines, timeout=300)
+        except Died as d:
+            viol("oracle", f"server over a store configured with `{cfg}`: harness died / hung ({d.why})", lines[max(0, len(d.answered) - 3):len(d.answered) + 1], "-", "process death")
+            continue
+        rep.cov["evaluations"] += len(lines)
+        rep.count("storage_config_sweeps")
+        for li in sorted(exp):
+            if ans[li] != exp[li][0]:
+                viol("oracle", f"server over a store configured with `{cfg}`: the reply to {exp[li][1][0]} is not the one the key-value map gives", lines[max(1, li - 5):li + 1], exp[li][0], ans[li][:200])
+                break
+    shutil.rmtree(root, ignore_errors=True)
+
+
 def run_c06(rep, tier, seed):
     rng = random.Random(seed * 1000 + 6)
     ncases = 120 if tier == "quick" else 1200
@@ -318,6 +356,7 @@ def run_c06(rep, tier, seed):
             elif mout[0] != hx(expected):
                 viol("correspondence", "model and server disagree on the reply stream", impl_lines[st:st + n], hx(expected), model[mi])
     length_sweep(rep, tier, rng, root + "-len", viol)
+    storage_config_sweep(rep, tier, rng, root + "-cfg", viol)
     for (st_, ngets, tok) in big_checks:
         if st_ + 5 < len(impl):
             rep.count("large_reply_cases")
@@ -337,7 +376,7 @@ def run_c06(rep, tier, seed):
     rep.cov["rule"] = ("request scripts of 1..9 SET/GET/DEL (keys: UTF-8 incl. empty, multi-byte, 40 bytes; values: arbitrary bytes incl. CR/LF/NUL, 8191..20000 bytes; DEL with 1..5 keys and duplicates) "
                        "sent to the real server over loopback either on a fresh connection cut into segments (all-at-once / byte-at-a-time / every single cut / random; 0-3 ms between segments; "
                        "everything sent before any reply is read) or on a persistent connection with pipelining depth 1/2/4/all; reply bytes compared with a python map and the Lean handler model; "
-                       "final store contents read through a direct handle; a sweep of value lengths 0..129 and -3..+101 around 1000 / 10^4 / 10^5 / 10^6 (SET then GET, the reply compared whole) and DELs naming 100 / 101 / 10 present keys; non-trivial = distinct case")
+                       "final store contents read through a direct handle; a sweep of value lengths 0..129 and -3..+101 around 1000 / 10^4 / 10^5 / 10^6 (SET then GET, the reply compared whole) and DELs naming 100 / 101 / 10 present keys; the same commands over stores configured at the edges (no reader cache, no reader pool, a file per entry, sync always); non-trivial = distinct case")
     for (kind, st, n, mi, reqs, expected) in cases[:3]:
         rep.sample({"requests": [r[0] for r in reqs], "impl_lines": [l[:160] for l in impl_lines[st:st + n]][:6], "impl": [a[:160] for a in impl[st:st + n]][:6]})
 
@@ -396,6 +435,24 @@ def hostile_streams(rng, tier):
         ("crlf-only", b"\r\n"),
         ("bulk-no-crlf", b"*2\r\n$3\r\nGET\r\n$1\r\nhXY"),
     ]
+    # keys that are not UTF-8, of every kind: lone continuation bytes (0x80, 0xbf), bytes that never occur (0xc0, 0xc1, 0xf5..0xff),
+    # truncated sequences, overlong forms, surrogates, code points above U+10FFFF; alone and inside ASCII; as the key of a SET, a GET,
+    # and as a later key of a DEL (python's decoder is the reference for what is not UTF-8)
+    bad_keys = [b"\x80", b"\xbf", b"\xc0", b"\xc1", b"\xf5", b"\xf8", b"\xfe", b"\xff", b"\xc3", b"\xe2\x82", b"\xf0\x9f\x98", b"\xc0\x80", b"\xe0\x80\x80",
+                b"\xf0\x80\x80\x80", b"\xed\xa0\x80", b"\xed\xbf\xbf", b"\xf4\x90\x80\x80", b"\xc3\x28", b"\xe2\x28\xa1", b"\x80\x80\x80", b"\xc3\xa9\x80"]
+    for bk in list(bad_keys):
+        bad_keys += [b"k" + bk, bk + b"k", b"good0" + bk]
+    for bk in bad_keys:
+        try:
+            bk.decode("utf-8")
+            continue
+        except UnicodeDecodeError:
+            pass
+        if tier == "quick" and len(bk) > 2 and rng.random() < 0.5:
+            continue
+        out.append(("nonutf8-set-" + bk.hex(), req_bytes(("SET", bk, b"v"))))
+        out.append(("nonutf8-get-" + bk.hex(), req_bytes(("GET", bk))))
+        out.append(("nonutf8-del-" + bk.hex(), ok_set + req_bytes(("DEL", [b"h", bk]))))
     # lengths of every size announced and never honoured (a length the peer writes is not memory the server owes it): as array
     # length, as bulk length, top-level and as the second element of a command
     for d in range(3, 20):
@@ -438,6 +495,13 @@ def run_c10(rep, tier, seed):
         steps.append(("alive", len(impl_lines), len(model_lines), None))
         impl_lines.append("srv.alive")
         model_lines.append("#")
+        if tag.startswith("nonutf8-"):
+            # read through a direct handle right away: a command whose key is not UTF-8 is not well-formed and must have
+            # changed nothing (the key it names is not in the store; the key `h` a DEL names before it is still there)
+            probe_k = bytes.fromhex(tag.split("-")[2]) if tag.startswith("nonutf8-set-") else b"h"
+            steps.append(("stored", len(impl_lines), len(model_lines), (tag, probe_k)))
+            impl_lines.append("kv.get " + hx(probe_k))
+            model_lines.append("kv.get " + hx(probe_k))
     # a fresh connection is still served, and the store holds exactly what well-formed commands put there
     fin = len(impl_lines)
     probe = req_bytes(("SET", b"fresh", b"1")) + req_bytes(("GET", b"fresh"))
@@ -504,6 +568,13 @@ def run_c10(rep, tier, seed):
             elif mo[1] == "clean" and a[1] != "eof":
                 viol("correspondence", f"connection end differs from the model (stream `{tag}`)", [impl_lines[ii][:300]], model[mi][:300], impl[ii][:300])
             sync_py_from_model(py, data, mo)
+        elif kind == "stored":
+            tag, probe_k = info
+            want = "nil" if tag.startswith("nonutf8-set-") else model[mi]
+            rep.count("stored_data_probes")
+            if impl[ii] != want:
+                viol("oracle", f"stored data changed through a command that is not well-formed (its key is not UTF-8; stream `{tag}`): key {probe_k!r} reads {impl[ii]} right afterwards",
+                     [impl_lines[ii - 2][:300], impl_lines[ii]], want, impl[ii])
         elif kind == "alive":
             if impl[ii] != "alive":
                 viol("oracle", "the server stopped serving (its run loop ended) after a misbehaving connection", [impl_lines[ii - 1][:300]], "alive", impl[ii])
@@ -613,7 +684,7 @@ def run_c10(rep, tier, seed):
         if a != m_:
             viol("correspondence" if "panic" not in a else "oracle", "Command::try_from differs from the model on a command frame (a frame that is not a well-formed command must be rejected as a whole)", [l], m_, a)
     rep.cov["traces_validated_against_impl"] = len(hostile)
-    rep.cov["rule"] = ("%d misbehaving byte streams (garbage, unknown/lower-case commands, wrong arity, non-UTF-8 keys, non-array / nested frames, truncated frames then close, sign-only numbers, "
+    rep.cov["rule"] = ("%d misbehaving byte streams (garbage, unknown/lower-case commands, wrong arity, non-UTF-8 keys of every kind (lone continuation bytes, impossible bytes, truncated / overlong sequences, surrogates, beyond U+10FFFF) in SET / GET / DEL, non-array / nested frames, truncated frames then close, sign-only numbers, "
                        "19-20 digit and negative lengths, array / bulk lengths of 10^2..10^18 announced and never honoured, nesting depth 33 and 200000, valid commands followed by garbage, random mutations of valid requests), each on its own connection, "
                        "interleaved with SET/GET/DEL on one persistent well-behaved connection; checked: process and run loop alive, control replies and final store = Lean handler model "
                        "(which applies exactly the well-formed commands before the first error), hostile connection closed; plus connection-level misbehaviour: clients that reset (RST) their connection while queued behind the "
@@ -1047,6 +1118,12 @@ def run_c16(rep, tier, seed):
              ["srv.signal", "sleep 100", "ctl.block off", "srv.wait 10000", "c.readraw i 3000", "c.readraw h 3000", "c.readraw w 3000", "kv.get 79"],
              {3: "returned", 4: "- end", 5: "- end", 6: "2b4f4b0d0a end", 7: "32"}, []),
         ]
+    # `once connections have wound down` is not `after a grace period`: a command that stays in the store for seconds keeps run()
+    # waiting (6.5 s here, 35 s in the thorough tier), its reply arrives whole and its effect is in the store
+    long_ms = 6500 if tier == "quick" else 35000
+    scenarios.append(("a command executing on a blocking thread for seconds (no grace period cuts it off)", ["c.open a", "ctl.block on", f"c.send a {SET(b'x', b'1')}", "ctl.entered 1 5000"],
+                      ["srv.signal", f"srv.wait {long_ms}", "ctl.block off", "srv.wait 10000", "c.readraw a 3000", "kv.get 78"],
+                      {1: "timeout", 3: "returned", 4: "2b4f4b0d0a end", 5: "31"}, []))
     for si, (name, setup, steps, expect, extra) in enumerate(scenarios):
         script = ["srv.start max=16 mfs=1000000"] + setup + steps + ["srv.stop"]
         shutil.rmtree(root, ignore_errors=True)
